@@ -12,8 +12,8 @@ PROPERTY = "C12"
 LEVEL = "model_checking"
 ASSUMPTIONS = [
     "privacy is delivered by a table turned into one exact-name --privacy rule per object; pattern rules and precedence are C13",
-    "the project is the fixed mini model of lib/minimodel.py (package, 2 modules, 3 classes incl. a subclass overriding a method, "
-    "function with annotations and cross-references to the other module, variables)",
+    "the project is the fixed mini model of lib/minimodel.py, extended (package, 2 modules, 5 classes incl. a subclass overriding a method, a subclass in the "
+    "other module and a nested class, function with annotations and cross-references to the other module, variables)",
     "K12b runs CrossHair with file-system events unblocked; it writes only below its own mkdtemp directory",
 ]
 
@@ -31,9 +31,9 @@ VARY_API = ["pkg.a", "pkg.a.C", "pkg.a.C.m", "pkg.a.C.v", "pkg.a.D", "pkg.a.D.m"
 
 
 def check_api(table):
-    s = M.build(table)
-    objs = {n: s.allobjects[n] for n in M.OBJECTS}
-    hid = {n: M.hidden_star(table, n) for n in M.OBJECTS}
+    s = M.build(table, extended=True)
+    objs = {n: s.allobjects[n] for n in M.OBJECTS_X}
+    hid = {n: M.hidden_star(table, n) for n in M.OBJECTS_X}
     for n, o in objs.items():
         if o.isVisible != (not hid[n]):
             note(why="isVisible differs from 'no hidden ancestor-or-self'", name=n, table={k: v.name for k, v in table.items()})
@@ -133,10 +133,10 @@ NR = tier(6, 8)
 
 
 def check_rendered(table, theme):
-    s = M.build(table)
+    s = M.build(table, extended=True)
     out = crawl.render(s, theme)
     try:
-        objs = {n: s.allobjects[n] for n in M.OBJECTS}
+        objs = {n: s.allobjects[n] for n in M.OBJECTS_X}
         hidden = [o for n, o in objs.items() if M.hidden_star(table, n)]
         private = [o for n, o in objs.items() if not M.hidden_star(table, n) and M.privacy_of(table, n) is PV]
         probs = crawl.hidden_traces(out, s, hidden)
@@ -151,7 +151,7 @@ def check_rendered(table, theme):
         if pm:
             note(why="listing entry of a private object without the private marker", problems=pm[:6], table={k: v.name for k, v in table.items()}, theme=theme)
             return False
-        visible = {n for n in M.OBJECTS if not M.hidden_star(table, n)}
+        visible = {n for n in M.OBJECTS_X if not M.hidden_star(table, n)}
         mp = crawl.missing_pages(out, s, visible)
         if mp:
             note(why="visible object without page/anchor", problems=mp[:6], table={k: v.name for k, v in table.items()})
